@@ -100,6 +100,17 @@ CLAIMED = {
        "oracle only. Seven defects found here were repaired by fix: commits (see known_findings.json); known finding: 64 KiB header capacity.",
   technique="Coq proof (induction over chunk lists, iteration by fuel) + differential K correspondence on chunk.c + API-level oracle",
   design_ref="DESIGN.md section 5 C13"),
+ "C17": dict(
+  text="Theorems (Coq) over Command.v and the command table regenerated from the build: for EVERY command identifier (defined or not), every datasize >= 0, "
+       "every channel count and NULL / non-NULL data the bytes of the caller's block a command may touch are at most datasize and none through NULL; a "
+       "struct command given any other size touches nothing; string commands given datasize >= 1 terminate within it. Tie: the property's grid is "
+       "enumerated completely on the implementation: all 63 identifiers of sndfile.h + 8 undefined ones x datasize 0..sizeof+8 and large x {NULL, exact-"
+       "size heap block} x {no handle, read, write, read/write} x 7 formats, each cell in its own process under AddressSanitizer (any access beyond "
+       "datasize aborts the cell and is reported with the datasize), block unchanged on rejected sizes, state digest equal before/after query commands.",
+  note="Trusted: Coq kernel, the guard-class table in harness/cmd_grid.c (dumped to Gen_Cmds.v), ASan. Reads inside [0,datasize) of unneeded bytes are not "
+       "observable. Three defects found here were repaired by fix: commits.",
+  technique="Coq proof over a regenerated command table + complete grid enumeration under AddressSanitizer",
+  design_ref="DESIGN.md section 5 C17"),
 }
 
 
